@@ -421,6 +421,8 @@ def check_C18(tier):
     )
 
 
+R2C = ("R12.2:at every call in bigint.rs to an integer overflowing_* method or to a (value, carry) helper of the module, both components of the returned "
+       "pair are read (or the pair is passed on whole): a carry is never dropped unread")
 WRAP_OK = set()
 R4 = ("R12.4:limb arithmetic in bigint.rs never uses wrapping_* on a limb type (which would silently drop a carry); wrapping on `usize` is index "
       "arithmetic (today: `len.wrapping_sub(1)` consumed by a bounds-checked `get`) and is not limb arithmetic")
@@ -442,6 +444,9 @@ def check_C12(tier):
         h, n = E.r_wrapping_arith(v, "minimal_lexical::bigint::", WRAP_OK)
         obs += E.hits_to_obs("R12.4", R4, h, n)
         rep.floor("%s: wrapping_* sites in bigint" % cfg, n, 3)
+        h, n = E.r_carry_components_used(f)
+        obs += E.hits_to_obs("R12.2", R2C, h, n)
+        rep.floor("%s: carry-returning call sites in bigint" % cfg, n, 10)
         rep.add(cfg, obs)
     ecl = ["default", "alloc"] if tier == "quick" else F.ALL_CONFIGS
     if os.environ.get("MLX_ONLY_CONFIG"):
@@ -460,6 +465,14 @@ def check_C12(tier):
     hw, _ = E.r_wrapping_arith(fixture, "bad::", set())
     h, _ = E.r_dropped_failure(fixture)
     ctl = [E.control_obs("R12.1", R, h, "ctl_dropped_failure"), E.control_obs("R12.4", R4, [E.Hit(x.fn.replace("bad::", ""), x.what) for x in hw], "ctl_wrapping_limb")]
+    class _FX:
+        pass
+    fxm = _FX()
+    fxm.mono = {m["id"]: m for m in F.build_fixture("rel")["mono"]}
+    hc, _ = E.r_carry_components_used(fxm, krate="bad", fn_prefix="bad::")
+    ctl.append(E.control_obs("R12.2", R2C, hc, "ctl_dropped_carry"))
+    hokc = [x for x in hc if x.fn != "ctl_dropped_carry"]
+    ctl.append(K.Ob("control R12.2 silent on fixtures/bad::ok_used_carry / root_carry", not hokc, "%d hits" % len(hokc), "CTL:a pair whose components are both read is not reported"))
     hok = [x for x in h if x.fn == "ok_used_failure"]
     ctl.append(K.Ob("control R12.1 silent on fixtures/bad::ok_used_failure", not hok, "%d hits" % len(hok), "CTL:the accepted idioms (?, unwrap, is_none) are not reported"))
     rep.add("controls", ctl)
@@ -469,7 +482,7 @@ def check_C12(tier):
         "(E4, modular under the vector invariant) in bigint.rs / stackvec.rs every non-wrapping `+ - *` cannot overflow, every narrowing cast is "
         "value-preserving except the audited halves of the widening idiom, raw accesses stay in capacity. "
         "Failure discipline: every call to a library function returning Option/Result has its result read (MIR def-use), so a capacity failure "
-        "cannot be silently ignored; LARGE_POW5 = 5^LARGE_POW5_STEP and SMALL_INT_POW5 exact. Exactness of the carry chains is NOT decided here.",
+        "cannot be silently ignored; carry discipline: both components of every (value, carry) pair are read; LARGE_POW5 = 5^LARGE_POW5_STEP and SMALL_INT_POW5 exact. Exactness of the carry chains is NOT decided here.",
         [A_TOOL, A_TARGET],
     )
 
